@@ -25,6 +25,9 @@ checks = {
  "C06": ("exploration", "6/C06",
          "Seeded simulation of request sessions against the real ociserver handler driven in-process: grammar-directed and mutated request lines (all methods, every path template with valid/other/invalid repositories, digests, tags and upload ids, empty segments, repeated slashes, over-long names; n/last/digest/mount/from queries; Range / Content-Range / Content-Type headers; known and unknown body lengths) over a populated ocimem, a fault-injecting backend (error at call k, reader failing mid-stream, iterator failing, writer failing; request body breaking mid-stream) and partially populated Funcs tables. Monitors: no panic; error responses are OCI JSON whose status agrees with the code; success responses carry the mandated headers with Content-Length equal to the body (healthy backend); every backend call has repository/tag/digest accepted by independent validators; every reader/writer obtained from the backend is closed when ServeHTTP returns.",
          "deterministic simulation: seeded request sessions with backend and request-body fault injection; recording/validating backend monitor with open-handle tracking; choice-trace replay and minimisation (the request-shape sweep itself is input generation)"),
+ "C07": ("exploration", "6/C07",
+         "Seeded simulation in which the injected backend fault is the input: a scripted backend fails the carrier method (each of the 17 Interface entry points, GET-, HEAD-, PUT-, POST-, DELETE- and list-based) with a generated error (15 standard values, custom codes, fmt %w wrapping on either side, HTTP-status wrappers 400..599, messages beginning with code/status prefixes, JSON details), observed through 1, 2 and 3 client->server hops over the simulated network. Oracle: errors.Is against all 15 standard values unchanged (status class for HEAD carriers), status = table or own status, code and detail preserved, Error() text identical after 1, 2 and 3 hops.",
+         "deterministic simulation with backend error injection through 1-3 simulated proxy hops; identity/status/detail/fixed-point oracles; choice-trace replay and minimisation"),
 }
 
 na = [
